@@ -6,6 +6,7 @@
 //!             T<ty>:<k>:<len>  transmit
 //!             R                CopyBroadcastReceiver::receive
 //!             D                sparse dump of the whole buffer (data + trailer)
+//!             J<d>:<ty>:<k>:<len>  lag jump: counters += d, then transmit
 //!       The three trailer counters are written directly to c0 over a zeroed buffer before the
 //!       transmitter is created. Observation: list of per-op results in Coq syntax (see Model/Broadcast.v `obs`);
 //!       the list ends at the first panic.
@@ -163,6 +164,25 @@ fn case_seq(parts: &[&str]) -> String {
                     break;
                 }
             },
+            b'J' => {
+                // lag jump: J<delta>:<ty>:<k>:<len> - the three trailer counters are advanced by delta (traffic the
+                // receiver slept through), then one real record is transmitted at the new tail
+                let p: Vec<&str> = o[1..].split(':').collect();
+                let delta: i64 = p[0].parse().unwrap();
+                let (ty, k, len): (i32, i64, i32) = (p[1].parse().unwrap(), p[2].parse().unwrap(), p[3].parse().unwrap());
+                let t = buf.get::<i64>(cap + bbd::TAIL_COUNTER_OFFSET) + delta;
+                buf.put::<i64>(cap + bbd::TAIL_INTENT_COUNTER_OFFSET, t);
+                buf.put::<i64>(cap + bbd::TAIL_COUNTER_OFFSET, t);
+                buf.put::<i64>(cap + bbd::LATEST_COUNTER_OFFSET, t);
+                match do_transmit(&mut tx, ty, k, len) {
+                    Ok(Ok(())) => out.push("STxOk".into()),
+                    Ok(Err(e)) => out.push(format!("STxErr {}", err_name(&e))),
+                    Err(()) => {
+                        out.push("SPanic".into());
+                        break;
+                    }
+                }
+            }
             b'D' => out.push(format!("SWords {}", sparse_runs(&buf))),
             _ => panic!("unknown case kind op {}", o),
         }
